@@ -7,6 +7,7 @@
 -/
 import CB.Lemmas.C08Params
 import CB.Lemmas.C08Old
+import CB.Lemmas.C08X
 namespace CB.P08
 open CB CB.Monty
 
@@ -257,6 +258,164 @@ example : ∃ n m, m < B ^ n ∧ m % 2 = 1 ∧ 1 < m ∧
     intro op h
     simp only [List.mem_cons, List.not_mem_nil, or_false] at h
     rcases h with h | h | h | h | h | h | h <;> (subst h; simp only [wt]; try decide)⟩
+
+/-! ## T08.6 — coverage round: the remaining public forms of `MontyForm`, `ConstMontyForm`, `BoxedMontyForm`
+     as operations of the history (`CB.Model.MontyX`: `XOp`, `stepX`, `stepSpecX`)
+
+  Forwarding forms share the model function of the form they forward to, so the theorems above already speak about
+  them: `Monty::new` / `BoxedMontyForm::new_with_arc` = `.new`; `Monty::zero`, `Default::default`, `Zero::zero` =
+  `.zero`; `Monty::one` = `.one`; `Monty::new_params_vartime` = `paramsNewVartime` / `paramsBoxed`;
+  `Retrieve::retrieve` = `opRetrieve`; `Monty::as_montgomery`, `to_montgomery` = `State.get`; `params()`,
+  `Monty::params()` = `State.params` (unchanged by every step: `ext_history_step`).  The correspondence run calls each
+  of them through its own path (`new.t`, `new.arc`, `zero.t`, `zero.d`, `zero.z`, `one.t`, `obs.*`, kinds `dynt`/`boxedt`)
+  and compares the stored limbs with the same model function.
+  New model content: `from_montgomery` / `as_montgomery_mut` (a caller-supplied representative is stored as it is; the
+  property speaks about canonical ones, `wtX`), `Monty::lincomb_vartime` (value-level call; the limb-level routine and
+  its exactness are C09's `lincomb_exact`), `Zeroize`, and the predicates `is_zero` / `ct_eq`. -/
+
+/-- `unMont n m v` — the plain-arithmetic L0 of a caller-supplied representative (`64·n` halvings in ℤ/m) — is the
+    unique residue `x < m` with `x·B^n ≡ v (mod m)`, i.e. `v·R⁻¹ mod m`. -/
+theorem unmont_is_times_r_inverse (n m v : Nat) (hodd : m % 2 = 1) :
+    unMont n m v < m ∧ (unMont n m v * B ^ n) % m = v % m ∧
+    ∀ x, x < m → (x * B ^ n) % m = v % m → x = unMont n m v :=
+  ⟨(unMont_spec hodd v).1, (unMont_spec hodd v).2, fun _ hx h => unMont_unique hodd v hx h⟩
+
+/-- one step of the extended machine preserves the invariant, in all three representations, and leaves the
+    parameter set untouched. -/
+theorem ext_history_step {st : State} {sp : List Nat} {n m : Nat} {op : XOp}
+    (g : Good st.params n m) (h : Inv n m st sp) (hw : wtX n m op) :
+    Inv n m (stepX st op) (stepSpecX n m sp op) ∧ (stepX st op).params = st.params :=
+  ⟨stepX_inv g (ammMulOK_holds g.mlt g.k) h hw, stepX_params op⟩
+
+/-- the extended machine on original operations IS the original machine (so T08.3 is the special case). -/
+theorem ext_machine_extends_base (ops : List MontyOp) (st : State) (n m : Nat) (sp : List Nat) :
+    runX st (ops.map XOp.base) = run st ops ∧ runSpecX n m sp (ops.map XOp.base) = runSpec m sp ops :=
+  ⟨runX_base ops st, runSpecX_base ops n m sp⟩
+
+/-- For every extended operation list, every prefix state satisfies the invariant. -/
+theorem ext_history_invariant {rep : Rep} {p : Params} {n m : Nat} (g : Good p n m)
+    (ops : List XOp) (hw : ∀ op ∈ ops, wtX n m op) (k : Nat) :
+    Inv n m (runX { rep := rep, params := p, store := [] } (ops.take k)) (runSpecX n m [] (ops.take k)) :=
+  (runX_inv (ops.take k) (st := { rep := rep, params := p, store := [] }) g (ammMulOK_holds g.mlt g.k)
+    (history_init rep p n m) (fun op ho => hw op (List.mem_of_mem_take ho))).1
+
+/-- … hence after construction from a (canonical) Montgomery representative, writes through `as_montgomery_mut`,
+    trait-level linear combinations, zeroization and any of the original operations, in any order: every stored
+    value of every prefix state is canonical and `retrieve()` returns the value of the same history in ℤ/m. -/
+theorem ext_history_canonical_and_retrieve {rep : Rep} {p : Params} {n m : Nat} (g : Good p n m)
+    (ops : List XOp) (hw : ∀ op ∈ ops, wtX n m op) (k i : Nat) :
+    let st := runX { rep := rep, params := p, store := [] } (ops.take k)
+    let sp := runSpecX n m [] (ops.take k)
+    val (st.get i) < m ∧ st.get i = canon n m (sget sp i) ∧ sget sp i < m ∧
+    opRetrieve st (st.get i) = toLimbs n (sget sp i) := by
+  intro st sp
+  have ⟨hinv, hpar⟩ := runX_inv (ops.take k) (st := { rep := rep, params := p, store := [] }) g
+    (ammMulOK_holds g.mlt g.k) (history_init rep p n m) (fun op ho => hw op (List.mem_of_mem_take ho))
+  have g' : Good st.params n m := by rw [show st.params = p from hpar]; exact g
+  have ⟨e, lt⟩ := get_canon g' hinv i
+  refine ⟨?_, e, lt, ?_⟩
+  · rw [e]; exact canon_lt g.mlt g'.pos _
+  · rw [e]
+    exact opRetrieve_canon g' (ammOneOK_holds g'.mlt g'.k) lt
+
+/-- the same from ANY parameter constructor (`Monty::new_params_vartime` is `paramsNewVartime` / `paramsBoxed`), every
+    limb count, every odd modulus `m < B^n` (1 included). -/
+theorem ext_history_from_constructors (n m : Nat) (hm : m < B ^ n) (hodd : m % 2 = 1)
+    (rep : Rep) (p : Params)
+    (hp : p = paramsNew (toLimbs n m) ∨ p = paramsNewVartime (toLimbs n m) ∨ p = paramsConst (toLimbs n m) ∨
+          p = paramsBoxed (toLimbs n m))
+    (ops : List XOp) (hw : ∀ op ∈ ops, wtX n m op) (k i : Nat) :
+    let st := runX { rep := rep, params := p, store := [] } (ops.take k)
+    let sp := runSpecX n m [] (ops.take k)
+    val (st.get i) < m ∧ st.get i = canon n m (sget sp i) ∧ opRetrieve st (st.get i) = toLimbs n (sget sp i) ∧
+    st.params = paramsSpec n m := by
+  have ⟨a, b, c, d⟩ := params_eq_spec hm hodd
+  have hps : p = paramsSpec n m := by
+    rcases hp with h | h | h | h <;> (rw [h]; assumption)
+  have g : Good p n m := hps ▸ good_spec hm hodd
+  intro st sp
+  have ⟨h1, h2, _, h4⟩ := ext_history_canonical_and_retrieve (rep := rep) g ops hw k i
+  have hpar := (runX_inv (ops.take k) (st := { rep := rep, params := p, store := [] }) g
+    (ammMulOK_holds g.mlt g.k) (history_init rep p n m) (fun op ho => hw op (List.mem_of_mem_take ho))).2
+  exact ⟨h1, h2, h4, hpar.trans hps⟩
+
+/-- `from_montgomery(v)` / `*as_montgomery_mut() = v` with a canonical `v` (`< m`): the stored limbs are exactly `v`
+    (nothing is reduced or converted), the denoted residue is `v·R⁻¹ mod m`, and `retrieve()` returns it. -/
+theorem written_representative_kept {st : State} {n m : Nat} (g : Good st.params n m) (v : Nat) (hv : v < m) :
+    (stepX st (.fromMont v)).get st.store.length = toLimbs n v ∧
+    (∀ i, i < st.store.length → (stepX st (.setMont i v)).get i = toLimbs n v) ∧
+    toLimbs n v = canon n m (unMont n m v) ∧
+    opRetrieve st (toLimbs n v) = toLimbs n (unMont n m v) := by
+  refine ⟨?_, ?_, (canon_unMont g.modd hv).symm, ?_⟩
+  · simp only [stepX, State.push, State.get, g.n_eq, List.getD_eq_getElem?_getD, List.getElem?_append_right (Nat.le_refl _)]
+    simp
+  · intro i hi
+    simp only [stepX, State.put, State.get, g.n_eq, List.getD_eq_getElem?_getD]
+    rw [List.getElem?_set_self hi]; rfl
+  · rw [← canon_unMont g.modd hv]
+    exact opRetrieve_canon g (ammOneOK_holds g.mlt g.k) (unMont_spec g.modd v).1
+
+/-- `Monty::lincomb_vartime` on stored (canonical) values: the result is the canonical representative of
+    `Σ xᵢ·yᵢ mod m` and `retrieve()` returns that sum.  (The trait method forwards to the inherent
+    `lincomb_vartime`; that the limb-level routine computes this value is C09's `lincomb_exact`.) -/
+theorem trait_lincomb_canonical {st : State} {sp : List Nat} {n m : Nat} (g : Good st.params n m)
+    (h : Inv n m st sp) (ps : List (Nat × Nat)) :
+    lincombVal st (ps.map fun p => (st.get p.1, st.get p.2)) = canon n m (dotRes m sp ps) ∧
+    dotRes m sp ps < m ∧
+    opRetrieve st (lincombVal st (ps.map fun p => (st.get p.1, st.get p.2))) = toLimbs n (dotRes m sp ps) := by
+  have e := lincombVal_canon g h ps
+  refine ⟨e, dotRes_lt g.pos ps, ?_⟩
+  rw [e]
+  exact opRetrieve_canon g (ammOneOK_holds g.mlt g.k) (dotRes_lt g.pos ps)
+
+/-- `is_zero()` / `Zero::is_zero` (a test on the stored limbs) decides whether the denoted residue is zero, and
+    `ct_eq` / `==` (a comparison of stored limbs and, for `MontyForm`, of the parameter fields) decides equality of
+    the denoted residues — because stored values are canonical. -/
+theorem is_zero_and_ct_eq_decide_residues {st : State} {sp : List Nat} {n m : Nat} (g : Good st.params n m)
+    (h : Inv n m st sp) (i j : Nat) :
+    (formIsZero (st.get i) = true ↔ sget sp i = 0) ∧
+    (formCtEq st (st.get i) (st.get j) = true ↔ sget sp i = sget sp j) := by
+  have ⟨a, ha⟩ := get_canon g h i
+  have ⟨b, hb⟩ := get_canon g h j
+  constructor
+  · simp only [formIsZero, decide_eq_true_eq, a]
+    exact canon_val_eq_zero_iff g.mlt g.modd ha
+  · have key : val (st.get i) = val (st.get j) ↔ sget sp i = sget sp j := by
+      rw [a, b]
+      exact ⟨canon_inj g.mlt g.modd ha hb, fun e => by rw [e]⟩
+    cases hr : st.rep <;> simp only [formCtEq, hr, paramsCtEq_refl, Bool.and_true, decide_eq_true_eq] <;> exact key
+
+/-- `ConstantTimeEq for MontyParams` (which compares `modulus`, `one`, `r2`, `r3`, `mod_neg_inv` but not
+    `mod_leading_zeros`) on constructor outputs: equal iff the moduli are equal. -/
+theorem params_ct_eq_iff_same_modulus (n m₁ m₂ : Nat) (h₁ : m₁ < B ^ n) (h₂ : m₂ < B ^ n)
+    (o₁ : m₁ % 2 = 1) (o₂ : m₂ % 2 = 1) :
+    paramsCtEq (paramsNew (toLimbs n m₁)) (paramsNewVartime (toLimbs n m₂)) = true ↔ m₁ = m₂ := by
+  rw [(params_eq_spec h₁ o₁).1, (params_eq_spec h₂ o₂).2.1]
+  exact paramsCtEq_spec_iff h₁ h₂
+
+/-- `Zeroize`: the stored representative becomes the zero limbs (the canonical form of residue 0, so the value
+    stays inside the invariant: `ext_history_step`), and `Zeroize for MontyParams` clears every field. -/
+theorem zeroize_clears (st : State) (i : Nat) (hi : i < st.store.length) (p : Params) :
+    (stepX st (.zeroize i)).get i = uzero st.n ∧
+    val (zeroizeParams p).modulus = 0 ∧ val (zeroizeParams p).one = 0 ∧ val (zeroizeParams p).r2 = 0 ∧
+    val (zeroizeParams p).r3 = 0 ∧ (zeroizeParams p).modNegInv = 0 ∧ (zeroizeParams p).modLeadingZeros = 0 := by
+  refine ⟨?_, val_uzero _, val_uzero _, val_uzero _, val_uzero _, rfl, rfl⟩
+  simp only [stepX, State.put, State.get, List.getD_eq_getElem?_getD]
+  rw [List.getElem?_set_self hi]; rfl
+
+/-- non-vacuity of T08.6: the hypotheses hold for the 2-limb modulus 2^64 + 1 and a concrete extended history
+    (a written representative, an overwrite, a linear combination, a zeroization, conversions in between). -/
+example : ∃ n m, m < B ^ n ∧ m % 2 = 1 ∧ 1 < m ∧
+    (∀ op ∈ [XOp.base (.new 5), .fromMont 7, .setMont 0 18446744073709551616, .lincomb [(0, 1), (1, 1)],
+             .base .conv, .zeroize 0, .observe 2, .base (.mul 1 2)], wtX n m op) :=
+  ⟨2, 18446744073709551617, by decide, by decide, by decide, by
+    intro op h
+    simp only [List.mem_cons, List.not_mem_nil, or_false] at h
+    rcases h with h | h | h | h | h | h | h | h <;> (subst h; simp only [wtX, wt]; try decide)⟩
+
+/-- … and the L0 of that history's written representative is what it should be: `7·R⁻¹ mod m` for `R = 2^128`,
+    `m = 2^64 + 1` is `7` (`R ≡ 1`). -/
+example : unMont 2 18446744073709551617 7 = 7 := by decide +kernel
 
 /-! ## the modulus-1 defect found by this check (DESIGN §7-14), repaired in /repo by fix commit b15470f
 
